@@ -954,6 +954,27 @@ func (e *Env) call(x ECall) EVal {
 			}
 		}
 		return EVal{T: u.Fresh("lit_unknown", SBool)}
+	case "lit_ascii":
+		// true iff the argument is a string literal of the program text made of ASCII bytes only
+		sv := arg(0)
+		if sv.T.Op == "" {
+			if txt, isLit := u.litVal[sv.T.A]; isLit || sv.T.A == "emptyStr" {
+				for i := 0; i < len(txt); i++ {
+					if txt[i] >= 0x80 {
+						return EVal{T: False}
+					}
+				}
+				return EVal{T: True}
+			}
+		}
+		return EVal{T: False}
+	case "bytes_string":
+		// string(b): the content of byte slice b (same function the engine uses for conversions)
+		b := arg(0)
+		u.Fun("bytes_of", []Sort{SV}, SStr)
+		r := App("bytes_of", SStr, b.T)
+		u.Axiom(Eq(App("slen", SInt, r), App("vlen", SInt, b.T)))
+		return EVal{T: r, Ty: types.Typ[types.String]}
 	case "byteat":
 		s, i := arg(0), arg(1)
 		return EVal{T: u.strAt(s.T, i.T)}
